@@ -198,3 +198,26 @@ Definition c18_pq_hist_case (cs : nat) (groups : list nat) (ops : list rd_op)
         (length ops =? length reqs) &&
         forallb (fun ol => negb (is_pass (fst ol)) || nlist_eqb (snd ol) (seq 0 (length groups))) (combine ops reqs);
         rows].
+
+(* ---------------- the parameter that configures the chunk size: its VALUE, whatever its type ----------------
+   readers.py: `self.chunksize = chunksize or CHUNKSIZE`.  What the caller hands over is reduced to its value:
+   None (nothing / omitted) or Some v, v the integral value of a Python int, of a numpy integer of any width, of a
+   bool (False = 0, True = 1).  A falsy value (nothing, 0) selects the default; every other value is the chunk size
+   itself, so the requests of a pass are a function of the value alone. *)
+Definition configured_cs (dflt : nat) (p : option nat) : nat :=
+  match p with Some (S v) => S v | _ => dflt end.
+Definition param_slices (dflt n : nat) (p : option nat) : list (nat * nat) := slices n (configured_cs dflt p).
+(* the variant `keep the parameter only if it passes a test on its TYPE, else the default`: keeps = false for the
+   types the test does not know *)
+Definition configured_cs_typed (keeps : bool) (dflt : nat) (p : option nat) : nat :=
+  if keeps then configured_cs dflt p else dflt.
+
+(* the default of the library, CHUNKSIZE = 16_777_216: never evaluated (unary numbers); an input that is no longer than
+   the chunk is requested in one slice whatever the chunk size is (Proofs/ChunksBufP.v:slices_capped), so the checkers
+   evaluate the default as max 1 n *)
+Definition default_chunksize : nat := N.to_nat 16777216%N.
+Definition capped_cs (n : nat) (p : option nat) : nat :=
+  match p with Some (S v) => S v | _ => Nat.max 1 n end.
+(* a pass of logged requests against the parameter value *)
+Definition c18_param_case (n : nat) (p : option nat) (passes : nat) (log : list (list (nat * nat))) : nat :=
+  c18_case n (capped_cs n p) passes log.
